@@ -229,6 +229,24 @@ func (e *Evaluator) Exec(fn *ssa.Function, args []V) Outcome {
 				if e.OnCall != nil {
 					e.OnCall(x, av)
 				}
+				// the min / max builtins over known constants
+				if b := calleeOf(x).Builtin; (b == "min" || b == "max") && len(av) > 0 {
+					best := av[0]
+					okAll := best.K == vConst
+					for _, a := range av[1:] {
+						if a.K != vConst || !okAll {
+							okAll = false
+							break
+						}
+						if (b == "min" && constant.Compare(a.C, token.LSS, best.C)) || (b == "max" && constant.Compare(a.C, token.GTR, best.C)) {
+							best = a
+						}
+					}
+					if okAll {
+						fr.vals[x] = best
+						continue
+					}
+				}
 				if x.Call.Signature().Results().Len() > 1 && e.CallN != nil {
 					if rs, ok := e.CallN(x, av); ok {
 						for _, r := range *x.Referrers() {
@@ -421,6 +439,23 @@ func (e *Evaluator) compute(fr *frame, v ssa.Value) V {
 			}
 		}
 	case *ssa.Call:
+		if b := calleeOf(x).Builtin; (b == "min" || b == "max") && len(x.Call.Args) > 0 {
+			best := e.val(fr, x.Call.Args[0])
+			okAll := best.K == vConst
+			for _, a := range x.Call.Args[1:] {
+				av := e.val(fr, a)
+				if av.K != vConst || !okAll {
+					okAll = false
+					break
+				}
+				if (b == "min" && constant.Compare(av.C, token.LSS, best.C)) || (b == "max" && constant.Compare(av.C, token.GTR, best.C)) {
+					best = av
+				}
+			}
+			if okAll {
+				return best
+			}
+		}
 		if e.entryPhi && e.Call != nil {
 			var av []V
 			for _, a := range x.Call.Args {
